@@ -507,6 +507,1248 @@ def run_probe(repo):
     return tables
 
 
+# ======================================================================================================
+# PART 2 -- translation of function BODIES (tie by translation): a tokenizer + recursive-descent parser of the
+# C++ subset in which Unicode.hpp and String::fromHex / String::fromBase64 are written, and a compiler of the
+# parsed statements into Lean functions over the checked memory of Nstd/Codec/Mem.lean
+# (`lean/Nstd/Generated/CodecBody.lean`).  lean/Nstd/Codec/PropsBody.lean proves that every generated function
+# IS the hand-written model function (Nstd/Codec/Model.lean) on every input.
+#
+# Anything outside the subset is REFUSED (TranslateError -> the check reports a broken tie).
+#
+# Semantics of the translation (assumptions, repeated in the MANIFEST note):
+#   integers      unsigned values are `Nat`s; an operation whose result can exceed its C type (sound static upper
+#                 bounds: a byte read <= 255, `x & L <= L`, `x >> k`, ...) is taken modulo 2^width; `a - b` on an
+#                 unsigned type is `(a + 2^w - b) % 2^w`; `int` expressions must stay provably inside 0..2^31-1
+#                 (otherwise refused); `++x`, `x++`, `x += e` on `usize` counters do not wrap (objects are smaller
+#                 than 2^64 bytes); a (signed) `char` keeps its BYTE value b and may only be masked with a literal
+#                 <= 0xff, compared (then it is the Int `b < 128 ? b : b - 256`), cast to an unsigned char, passed
+#                 to `length(char)`, appended, or used as a table index (a checked read with that Int)
+#   pointers      a pointer parameter `p` is an offset (initially 0) into a byte/word list `p_mem` of which the
+#                 range `[0, p_lim)` may be read (`rdR`); `p + n`, `p++`, `p += n`, `p < q` act on the offsets
+#   tables        `static const T name[] = {...}` / `const char* name = "..."`: a list; `name[i]` is a checked read
+#   String        a value is the list of its chars; `String r(n)` / `String r` = empty; `r.append(c)` appends
+#                 `c mod 256` (mod 65536 under _UNICODE: tchar); `r.resize(n)` on the fresh String = n chars
+#                 (zeros), `(char*)r` then points at them (checked stores `wr`); `r.reserve(n)` on the fresh String =
+#                 a block of exactly n writable bytes, `r.resize(j)` after raw stores = the first j stored bytes when
+#                 `j <= n`, a fault otherwise (buffer protocol of the model, see Model.lean `fromBase64`);
+#                 `(const char*)s`, passing `s` for a `const char*` parameter: the block `s ++ [0]` of which
+#                 `[0, s.length())` may be read (stricter than C: reading the terminator counts as a fault)
+#   loops         `for(init; cond; inc) body` becomes a recursive function on a FUEL argument that also carries the
+#                 statements behind the loop; running out of fuel is `.oob`; the theorems show the model result for
+#                 every fuel above the stated bound, so fuel never runs out
+#   switch        selector evaluated once, cases tested in source order, fall-through unrolled
+# ======================================================================================================
+BODY_OUT = VERIF / "lean" / "Nstd" / "Generated" / "CodecBody.lean"
+
+CTOK = re.compile(r"\s*(0[xX][0-9a-fA-F]+[uUlL]*|\d+[uUlL]*|'(?:\\.|[^'\\])'|\"(?:\\.|[^\"\\])*\"|[A-Za-z_]\w*|<<=|>>=|\+\+|--|->|<<|>>|<=|>=|==|!=|&&|\|\||\+=|-=|\*=|/=|%=|&=|\|=|\^=|[{}()\[\];,<>=+\-*/!?:&.~|^%])")
+
+INT_TYPES = {"char": ("s8", 8), "uchar": ("u8", 8), "byte": ("u8", 8), "uint8": ("u8", 8), "tchar": ("tchar", 16), "uint16": ("u16", 16),
+             "uint32": ("u32", 32), "uint": ("u32", 32), "usize": ("u64", 64), "uint64": ("u64", 64), "int": ("int", 32), "bool": ("bool", 1)}
+WIDTH = {"u8": 8, "s8": 8, "u16": 16, "tchar": 16, "u32": 32, "u64": 64, "int": 31, "bool": 1}
+TYPE_WORDS = set(INT_TYPES) | {"const", "static", "unsigned", "signed", "long", "String", "void"}
+
+
+def preprocess(text, defines):
+    """#ifdef X / #else / #endif only (what the anchored bodies use); anything else is refused"""
+    out, stack = [], []
+    for line in text.split("\n"):
+        s = line.strip()
+        if s.startswith("#"):
+            m = re.fullmatch(r"#\s*(ifdef|ifndef)\s+(\w+)", s)
+            if m:
+                on = (m.group(2) in defines) == (m.group(1) == "ifdef")
+                stack.append(on)
+            elif re.fullmatch(r"#\s*else", s) and stack:
+                stack[-1] = not stack[-1]
+            elif re.fullmatch(r"#\s*endif", s) and stack:
+                stack.pop()
+            else:
+                raise TranslateError(f"preprocessor line not understood: {s!r}")
+            continue
+        if all(stack):
+            out.append(line)
+    if stack:
+        raise TranslateError("unbalanced #ifdef")
+    return "\n".join(out)
+
+
+def ctokens(text, what):
+    toks, pos = [], 0
+    text = text.rstrip()
+    while pos < len(text):
+        m = CTOK.match(text, pos)
+        if not m:
+            if not text[pos:].strip():
+                break
+            raise TranslateError(f"{what}: cannot tokenize at {text[pos:pos + 30]!r}")
+        toks.append(m.group(1))
+        pos = m.end()
+    return toks
+
+
+class CParser:
+    """statements / expressions of the subset -> tuples"""
+
+    def __init__(self, toks, what):
+        self.t, self.i, self.what = toks, 0, what
+
+    def err(self, msg):
+        raise TranslateError(f"{self.what}: {msg} near {' '.join(self.t[self.i:self.i + 8])!r}")
+
+    def peek(self, k=0):
+        return self.t[self.i + k] if self.i + k < len(self.t) else None
+
+    def eat(self, x=None):
+        tok = self.peek()
+        if tok is None or (x is not None and tok != x):
+            self.err(f"expected {x!r}, found {tok!r}")
+        self.i += 1
+        return tok
+
+    # ---- types ----
+    def at_type(self, k=0):
+        return self.peek(k) in TYPE_WORDS
+
+    def base_type(self):
+        words = []
+        while self.peek() in TYPE_WORDS:
+            words.append(self.eat())
+        ws = [w for w in words if w not in ("const", "static")]
+        if ws == ["unsigned", "char"]:
+            return "u8"
+        if ws == ["unsigned", "long"] or ws == ["unsigned", "long", "long"]:
+            return "u64"
+        if ws == ["unsigned"] or ws == ["unsigned", "int"]:
+            return "u32"
+        if len(ws) == 1 and ws[0] in INT_TYPES:
+            return INT_TYPES[ws[0]][0]
+        if ws == ["String"]:
+            return "string"
+        self.err(f"type {' '.join(words)!r} is not in the translated subset")
+
+    def declarator_type(self, base):
+        ty = base
+        while self.peek() in ("*", "&", "const"):
+            tok = self.eat()
+            if tok == "*":
+                ty = ("ptr", ty)
+            elif tok == "&":
+                ty = ("ref", ty)
+        return ty
+
+    # ---- expressions ----
+    def expr(self):
+        return self.assign()
+
+    def assign(self):
+        l = self.binary(0)
+        if self.peek() in ("=", "+=", "-=", "|=", "&=", "<<=", ">>=", "*=", "/=", "%=", "^="):
+            op = self.eat()
+            r = self.assign()
+            return ("assign", op, l, r)
+        if self.peek() == "?":
+            self.err("conditional operator is not translated")
+        return l
+
+    LEVELS = [["||"], ["&&"], ["|"], ["^"], ["&"], ["==", "!="], ["<", ">", "<=", ">="], ["<<", ">>"], ["+", "-"], ["*", "/", "%"]]
+
+    def binary(self, lvl):
+        if lvl == len(self.LEVELS):
+            return self.unary()
+        l = self.binary(lvl + 1)
+        while self.peek() in self.LEVELS[lvl]:
+            op = self.eat()
+            r = self.binary(lvl + 1)
+            l = ("bin", op, l, r)
+        return l
+
+    def unary(self):
+        tok = self.peek()
+        if tok == "(" and self.at_type(1):
+            self.eat("(")
+            ty = self.declarator_type(self.base_type())
+            self.eat(")")
+            return ("cast", ty, self.unary())
+        if tok in ("~", "!", "*", "-"):
+            self.eat()
+            return ("un", tok, self.unary())
+        if tok in ("++", "--"):
+            self.eat()
+            return ("preinc", tok, self.unary())
+        if tok == "&":
+            self.err("address-of is not translated")
+        return self.postfix()
+
+    def postfix(self):
+        tok = self.eat()
+        if tok == "(":
+            e = self.expr()
+            self.eat(")")
+        elif re.match(r"\d", tok):
+            sfx = re.search(r"[uUlL]+$", tok)
+            sfx = sfx.group(0).lower() if sfx else ""
+            v = int(re.sub(r"[uUlL]+$", "", tok), 0)
+            ty = "u64" if "l" in sfx and "u" in sfx else "u32" if sfx == "u" else "int" if sfx == "" and v < 2 ** 31 else None
+            if ty is None:
+                self.err(f"literal {tok} has a type outside the subset")
+            e = ("lit", v, ty)
+        elif tok.startswith("'"):
+            body = tok[1:-1]
+            esc = {"\\0": 0, "\\n": 10, "\\t": 9, "\\r": 13, "\\\\": 92, "\\'": 39}
+            if body not in esc and len(body) != 1:
+                self.err(f"character literal {tok}")
+            e = ("lit", esc[body] if body in esc else ord(body), "int")
+        elif tok.startswith('"'):
+            e = ("strlit", tok[1:-1])
+        elif tok == "String" and self.peek() == "(":
+            self.eat("(")
+            self.eat(")")
+            e = ("emptystring",)
+        elif tok in ("true", "false"):
+            e = ("boollit", tok)
+        elif re.match(r"[A-Za-z_]", tok):
+            if self.peek() == "(":
+                e = ("call", tok, self.args())
+            else:
+                e = ("var", tok)
+        else:
+            self.i -= 1
+            self.err(f"unexpected token {tok!r}")
+        while True:
+            if self.peek() == "[":
+                self.eat()
+                ix = self.expr()
+                self.eat("]")
+                e = ("index", e, ix)
+            elif self.peek() in ("++", "--"):
+                e = ("postinc", self.eat(), e)
+            elif self.peek() == ".":
+                self.eat()
+                name = self.eat()
+                e = ("method", e, name, self.args())
+            else:
+                return e
+
+    def args(self):
+        self.eat("(")
+        a = []
+        if self.peek() != ")":
+            a.append(self.expr())
+            while self.peek() == ",":
+                self.eat()
+                a.append(self.expr())
+        self.eat(")")
+        return a
+
+    # ---- statements ----
+    def block(self):
+        out = []
+        while self.peek() is not None and self.peek() != "}":
+            out.append(self.stmt())
+        return out
+
+    def decl(self):
+        """T d1 [= e | (args)] , d2 ... ;   or   T name[] = { ... };"""
+        base = self.base_type()
+        ds = []
+        while True:
+            ty = self.declarator_type(base)
+            name = self.eat()
+            if not re.match(r"[A-Za-z_]\w*$", name):
+                self.err("declarator name")
+            if self.peek() == "[":
+                self.eat()
+                n = None
+                if self.peek() != "]":
+                    n = self.expr()
+                self.eat("]")
+                self.eat("=")
+                self.eat("{")
+                vals = []
+                while self.peek() != "}":
+                    vals.append(self.binary(0))
+                    if self.peek() == ",":
+                        self.eat()
+                self.eat("}")
+                ds.append(("table", ty, name, vals, n))
+            elif self.peek() == "=":
+                self.eat()
+                ds.append(("var", ty, name, self.assign()))
+            elif self.peek() == "(":
+                ds.append(("ctor", ty, name, self.args()))
+            else:
+                ds.append(("var", ty, name, None))
+            if self.peek() == ",":
+                self.eat()
+                continue
+            self.eat(";")
+            return ("decl", ds)
+
+    def stmt(self):
+        tok = self.peek()
+        if tok == "{":
+            self.eat()
+            b = self.block()
+            self.eat("}")
+            return ("block", b)
+        if tok == ";":
+            self.eat()
+            return ("block", [])
+        if tok == "if":
+            self.eat()
+            self.eat("(")
+            c = self.expr()
+            self.eat(")")
+            thn = self.stmt()
+            els = None
+            if self.peek() == "else":
+                self.eat()
+                els = self.stmt()
+            return ("if", c, thn, els)
+        if tok == "for":
+            self.eat()
+            self.eat("(")
+            init = None
+            if self.peek() == ";":
+                self.eat()
+            elif self.at_type():
+                init = self.decl()
+            else:
+                init = ("expr", self.expr())
+                self.eat(";")
+            cond = None if self.peek() == ";" else self.expr()
+            self.eat(";")
+            incs = []
+            while self.peek() != ")":
+                incs.append(self.expr())
+                if self.peek() == ",":
+                    self.eat()
+            self.eat(")")
+            return ("for", init, cond, incs, self.stmt())
+        if tok == "switch":
+            self.eat()
+            self.eat("(")
+            sel = self.expr()
+            self.eat(")")
+            self.eat("{")
+            cases = []          # (label or None for default, [stmts])
+            while self.peek() != "}":
+                if self.peek() == "case":
+                    self.eat()
+                    lab = self.binary(0)
+                    self.eat(":")
+                    cases.append([lab, []])
+                elif self.peek() == "default":
+                    self.eat()
+                    self.eat(":")
+                    cases.append([None, []])
+                else:
+                    if not cases:
+                        self.err("statement in front of the first case label")
+                    cases[-1][1].append(self.stmt())
+            self.eat("}")
+            return ("switch", sel, cases)
+        if tok == "return":
+            self.eat()
+            e = None if self.peek() == ";" else self.expr()
+            self.eat(";")
+            return ("return", e)
+        if tok in ("break", "continue"):
+            self.eat()
+            self.eat(";")
+            return (tok,)
+        if tok in ("while", "do", "goto", "try", "throw"):
+            self.err(f"`{tok}` is not in the translated subset")
+        if self.at_type() and not (tok == "String" and self.peek(1) == "("):
+            return self.decl()
+        e = self.expr()
+        self.eat(";")
+        return ("expr", e)
+
+
+def parse_function(src, header_rx, what, defines=()):
+    """(parameter list [(type, name)], statements) of the single function whose header matches"""
+    ms = list(re.finditer(header_rx, src))
+    if len(ms) != 1:
+        raise TranslateError(f"{what}: {len(ms)} definitions found, expected exactly one")
+    m = ms[0]
+    body = function_body(src, header_rx, what)
+    body = strip_comments(preprocess(body, set(defines)))
+    p = CParser(ctokens(body, what), what)
+    stmts = p.block()
+    if p.peek() is not None:
+        p.err("trailing tokens")
+    ptoks = ctokens(strip_comments(m.group("params")), what)
+    pp = CParser(ptoks, what + " parameters")
+    params = []
+    while pp.peek() is not None:
+        const = pp.peek() == "const"
+        ty = pp.declarator_type(pp.base_type())
+        if ty == ("ref", "string") and const:
+            ty = ("cref", "string")
+        params.append((ty, pp.eat()))
+        if pp.peek() == ",":
+            pp.eat()
+    return params, stmts
+
+
+# ---- compiler: statements -> Lean text --------------------------------------------------------------------------------
+class Val:
+    """a C value: Lean text, C type, static upper bound (None = only the type's)"""
+
+    def __init__(self, text, ty, ub=None):
+        self.text, self.ty, self.ub = text, ty, ub
+
+    def bound(self):
+        if self.ub is not None:
+            return self.ub
+        if isinstance(self.ty, str) and self.ty in WIDTH:
+            return 2 ** WIDTH[self.ty] - 1
+        return None
+
+
+def ind(text, n=1):
+    pad = "  " * n
+    return "\n".join(pad + l if l else l for l in text.split("\n"))
+
+
+def par(t):
+    return t if re.fullmatch(r"\w+", t) else "(" + t + ")"
+
+
+S8INT = "(if {0} < 128 then ({0} : Int) else ({0} : Int) - 256)"
+
+
+class FnCompiler:
+    def __init__(self, unit, name, params, stmts, ret, what, tchar_bits=8):
+        self.unit, self.name, self.params, self.stmts, self.ret, self.what = unit, name, params, stmts, ret, what
+        self.tmp = 0
+        self.loops = []          # Lean text of the loop functions (emitted in front of the function)
+        self.tables = []         # Lean text of the table constants
+        self.refs = [n for t, n in params if t == ("ref", "string")]
+        self.char_mod = 2 ** tchar_bits
+        self.fuel_used = False
+
+    def err(self, msg):
+        raise TranslateError(f"{self.what}: {msg}")
+
+    def fresh(self, base="t"):
+        self.tmp += 1
+        return f"{base}{self.tmp}"
+
+    # ---- environment: name -> Val | ("string", text, mode, cap) | ("table", leanName, elemty) ----
+    def arith_type(self, a, b):
+        ts = [a, b]
+        for t in ts:
+            if t not in WIDTH:
+                self.err(f"arithmetic on a value of type {t}")
+        if "u64" in ts:
+            return "u64"
+        if "u32" in ts:
+            return "u32"
+        return "int"
+
+    def fit(self, text, ty, ub):
+        """value of an arithmetic result in type `ty` whose mathematical upper bound is `ub` (None = unknown)"""
+        w = WIDTH[ty]
+        if ty == "int":
+            if ub is None or ub >= 2 ** 31:
+                self.err(f"cannot show that the int expression {text} stays below 2^31")
+            return Val(text, ty, ub)
+        if ub is not None and ub < 2 ** w:
+            return Val(text, ty, ub)
+        return Val(f"({par(text)} % {2 ** w})", ty, None)
+
+    def byte_of(self, v):
+        """numeric (non-negative) view of a value; a signed char is refused here"""
+        if v.ty == "s8":
+            self.err(f"a (signed) char value {v.text} is used as a number")
+        if v.ty == "bool":
+            self.err("a bool is used as a number")
+        return v
+
+    def binop(self, op, a, b):
+        if op in ("==", "!=", "<", ">", "<=", ">="):
+            rel = {"==": "=", "!=": "≠", "<": "<", ">": ">", "<=": "≤", ">=": "≥"}[op]
+            if isinstance(a.ty, tuple) and isinstance(b.ty, tuple):
+                if a.ty[0] != "ptr" or b.ty[0] != "ptr" or a.ty[2] != b.ty[2]:
+                    self.err("comparison of pointers into different blocks")
+                return Val(f"{a.text} {rel} {b.text}", "prop")
+            if a.ty == "s8" or b.ty == "s8":
+                if a.ty == "s8" and b.ty == "s8":
+                    self.err("comparison of two chars")
+                s, o, flip = (a, b, False) if a.ty == "s8" else (b, a, True)
+                self.byte_of(o)
+                st, ot = S8INT.format(par(s.text)), f"({par(o.text)} : Int)"
+                return Val(f"{ot} {rel} {st}" if flip else f"{st} {rel} {ot}", "prop")
+            self.byte_of(a), self.byte_of(b)
+            self.arith_type(a.ty, b.ty)
+            return Val(f"{a.text} {rel} {b.text}", "prop")
+        if isinstance(a.ty, tuple) and a.ty[0] == "ptr" and op in ("+", "-") and not isinstance(b.ty, tuple):
+            self.byte_of(b)
+            if op == "-":
+                self.err("pointer - integer is not translated")
+            return Val(self.addtext(a.text, b.text), a.ty)
+        if op == "&" and (a.ty == "s8" or b.ty == "s8"):
+            s, o = (a, b) if a.ty == "s8" else (b, a)
+            if o.ty == "s8" or o.bound() is None or o.bound() > 255 or not re.fullmatch(r"\d+", o.text):
+                self.err("a (signed) char may only be masked with a literal <= 0xff")
+            t = f"{par(a.text)} &&& {par(b.text)}"
+            return Val(t, "int", o.bound())
+        self.byte_of(a), self.byte_of(b)
+        ty = self.arith_type(a.ty, b.ty)
+        ua, ub = a.bound(), b.bound()
+        A, B = par(a.text), par(b.text)
+        if op == "&":
+            return self.fit(f"{A} &&& {B}", ty, min(ua, ub))
+        if op in ("|", "^"):
+            return self.fit(f"{A} {'|||' if op == '|' else '^^^'} {B}", ty, 2 ** max(ua.bit_length(), ub.bit_length()) - 1)
+        if op == ">>":
+            k = int(b.text) if re.fullmatch(r"\d+", b.text) else None
+            ty = a.ty if a.ty in ("u32", "u64") else "int"
+            return self.fit(f"{A} >>> {B}", ty, ua >> k if k is not None else ua)
+        if op == "<<":
+            if not re.fullmatch(r"\d+", b.text) or int(b.text) >= (32 if a.ty != "u64" else 64):
+                self.err("shift count must be a small literal")
+            ty = a.ty if a.ty in ("u32", "u64") else "int"
+            return self.fit(f"{A} <<< {B}", ty, ua << int(b.text))
+        if op == "+":
+            return self.fit(self.addtext(a.text, b.text), ty, ua + ub)
+        if op == "*":
+            return self.fit(f"{A} * {B}", ty, ua * ub)
+        if op in ("/", "%"):
+            if not re.fullmatch(r"\d+", b.text) or int(b.text) == 0:
+                self.err("division only by a non-zero literal")
+            return self.fit(f"{A} {op} {B}", ty, ua)
+        if op == "-":
+            if ty == "int":
+                if re.fullmatch(r"\d+", a.text) and re.fullmatch(r"\d+", b.text) and int(a.text) >= int(b.text):
+                    return Val(f"{A} - {B}", ty, int(a.text) - int(b.text))
+                self.err("subtraction of ints is not translated")
+            if re.fullmatch(r"\d+", a.text) and re.fullmatch(r"\d+", b.text) and int(a.text) >= int(b.text):
+                return Val(f"{A} - {B}", ty, int(a.text) - int(b.text))
+            w = 2 ** WIDTH[ty]
+            return Val(f"({A} + {w} - {B}) % {w}", ty, None)
+        self.err(f"operator {op} is not translated")
+
+    @staticmethod
+    def addtext(a, b):
+        if b == "0":
+            return a
+        if a == "0":
+            return b
+        m = re.fullmatch(r"(\w+) \+ (\d+)", a)
+        if m and re.fullmatch(r"\d+", b):
+            return f"{m.group(1)} + {int(m.group(2)) + int(b)}"
+        return f"{par(a)} + {par(b)}"
+
+    def convert(self, v, ty):
+        """conversion of an arithmetic value to integer type ty"""
+        if ty == v.ty:
+            return v
+        if ty == "s8":
+            if v.ty in ("u8",):
+                return Val(v.text, "s8", None)
+            self.byte_of(v)
+            b = v.bound()
+            return Val(v.text if b is not None and b < 256 else f"({par(v.text)} % 256)", "s8", None)
+        if v.ty == "s8":
+            if ty == "u8":
+                return Val(v.text, "u8", 255)
+            self.err(f"conversion of a (signed) char to {ty} (sign extension) is not translated")
+        if v.ty == "prop" and ty == "bool":
+            return Val(f"decide ({v.text})", "bool")
+        if v.ty == "bool" or ty == "bool" or v.ty == "prop":
+            self.err(f"conversion {v.ty} -> {ty}")
+        if ty == "tchar":
+            w = self.char_mod
+            b = v.bound()
+            return Val(v.text if b is not None and b < w else f"({par(v.text)} % {w})", "tchar", min(b, w - 1) if b is not None else w - 1)
+        b = v.bound()
+        w = 2 ** WIDTH[ty]
+        if ty == "int":
+            return self.fit(v.text, "int", b)
+        if b is not None and b < w:
+            return Val(v.text, ty, b)
+        return Val(f"({par(v.text)} % {w})", ty, None)
+
+    # ---- expressions (CPS: k receives the value and the environment) ----
+    def rvalue(self, e, env, k):
+        kind = e[0]
+        if kind == "lit":
+            return k(Val(str(e[1]), e[2], e[1]), env)
+        if kind == "var":
+            v = env.get(e[1])
+            if v is None:
+                self.err(f"unknown identifier {e[1]}")
+            return k(v, env)
+        if kind == "boollit":
+            return k(Val(e[1], "bool"), env)
+        if kind == "emptystring":
+            return k(("string", "[]", "value"), env)
+        if kind == "cast":
+            ty = e[1]
+
+            def after(v, env):
+                if isinstance(v, tuple) and v[0] == "string":
+                    if ty in (("ptr", "s8"),):
+                        return k(self.string_ptr(v, e[2], env), env)
+                    self.err("cast of a String")
+                if isinstance(ty, tuple):
+                    if ty[0] == "ptr" and isinstance(v.ty, tuple) and v.ty[0] == "ptr":
+                        if WIDTH.get(ty[1]) != WIDTH.get(v.ty[1]):
+                            self.err("pointer cast between element types of different size")
+                        return k(Val(v.text, ("ptr", ty[1], v.ty[2]), None), env)
+                    self.err("cast to a pointer / reference type")
+                if isinstance(v.ty, tuple):
+                    self.err("cast of a pointer to an integer")
+                return k(self.convert(v, ty), env)
+            return self.rvalue(e[2], env, after)
+        if kind == "un":
+            op = e[1]
+            if op == "*":
+                return self.rvalue(e[2], env, lambda p, env: self.read(p, Val("0", "int", 0), env, k))
+
+            def after(v, env):
+                if op == "~":
+                    self.byte_of(v)
+                    ty = v.ty if v.ty in ("u32", "u64") else None
+                    if ty is None:
+                        self.err("`~` on a value narrower than unsigned int")
+                    return k(Val(f"{2 ** WIDTH[ty] - 1} - {par(v.text)}", ty, None), env)
+                if op == "!":
+                    if v.ty == "prop":
+                        return k(Val(f"¬ ({v.text})", "prop"), env)
+                    if v.ty == "bool":
+                        return k(Val(f"(!{par(v.text)})", "bool"), env)
+                    self.byte_of(v)
+                    return k(Val(f"{v.text} = 0", "prop"), env)
+                self.err(f"unary {op} is not translated")
+            return self.rvalue(e[2], env, after)
+        if kind == "bin":
+            if e[1] in ("&&", "||"):
+                self.err("short-circuit operators are not translated")
+            return self.rvalue(e[2], env, lambda a, env: self.rvalue(e[3], env, lambda b, env: k(self.binop(e[1], a, b), env)))
+        if kind == "index":
+            return self.rvalue(e[1], env, lambda p, env: self.rvalue(e[2], env, lambda i, env: self.read(p, i, env, k)))
+        if kind in ("postinc", "preinc"):
+            if e[2][0] != "var":
+                self.err("++ / -- on something that is not a variable")
+            name = e[2][1]
+            old = env[name]
+            if e[1] != "++":
+                self.err("-- is not translated")
+            new = self.incremented(old, Val("1", "int", 1))
+            env2 = dict(env)
+            env2[name] = new
+            return k(old if kind == "postinc" else new, env2)
+        if kind == "assign":
+            return self.assign(e, env, k)
+        if kind == "call":
+            return self.call(e, env, k)
+        if kind == "method":
+            return self.method(e, env, k)
+        if kind == "strlit":
+            self.err("string literal outside a table declaration")
+        self.err(f"expression {kind} is not translated")
+
+    def incremented(self, old, by):
+        if isinstance(old.ty, tuple):
+            return Val(self.addtext(old.text, by.text), old.ty)
+        if old.ty == "u64":              # usize counters: no wrap (documented assumption)
+            return Val(self.addtext(old.text, by.text), "u64", None)
+        return self.convert(self.binop("+", old, by), old.ty)
+
+    def read(self, p, i, env, k):
+        """*p / p[i]"""
+        if isinstance(p, tuple) and p[0] == "table":
+            _, lname, ety = p
+            if i.ty == "s8":
+                rd = f"rdTable {lname} {S8INT.format(par(i.text))}"
+            else:
+                self.byte_of(i)
+                rd = f"rd {lname} {par(i.text)}"
+            t = self.fresh()
+            return f"({rd}).bind fun {t} =>\n" + ind(k(Val(t, ety, None), env))
+        if isinstance(p, tuple):
+            self.err("indexing a String")
+        if not (isinstance(p.ty, tuple) and p.ty[0] == "ptr"):
+            self.err(f"dereference of a non-pointer {p.text}")
+        self.byte_of(i)
+        _, ety, blk = p.ty
+        at = self.addtext(p.text, i.text)
+        b = env["#blocks"][blk]
+        t = self.fresh("b")
+        if b["kind"] == "in":
+            rd = f"rdR {b['mem']} {b['lim']} {par(at)}"
+        else:
+            cur = env[b["var"]]
+            rd = f"rd {par(cur[1])} {par(at)}"
+        return f"({rd}).bind fun {t} =>\n" + ind(k(Val(t, ety, 255 if WIDTH.get(ety) == 8 and ety != "s8" else None), env))
+
+    def string_ptr(self, sv, src_expr, env):
+        """(const char*)s / (char*)result"""
+        if src_expr[0] != "var":
+            self.err("conversion of a String expression to a pointer")
+        name = src_expr[1]
+        blocks = dict(env["#blocks"])
+        if name in self.const_strings:
+            blocks[name] = {"kind": "in", "mem": f"({sv[1]} ++ [0])", "lim": f"{par(sv[1])}.length"}
+        else:
+            blocks[name] = {"kind": "out", "var": name}
+        env["#blocks"] = blocks
+        return Val("0", ("ptr", "s8", name), 0)
+
+    def store(self, lhs, env, k_addr):
+        """evaluates the address of an lvalue `p[i]` / `*p` into (block, offset text); k_addr(blockinfo, at, env)"""
+        if lhs[0] == "index":
+            return self.rvalue(lhs[1], env, lambda p, env: self.rvalue(lhs[2], env, lambda i, env: k_addr(p, i, env)))
+        if lhs[0] == "un" and lhs[1] == "*":
+            return self.rvalue(lhs[2], env, lambda p, env: k_addr(p, Val("0", "int", 0), env))
+        self.err("assignment target is not translated")
+
+    def assign(self, e, env, k):
+        _, op, lhs, rhs = e
+        if lhs[0] == "var":
+            name = lhs[1]
+            if name not in env:
+                self.err(f"assignment to unknown {name}")
+            old = env[name]
+
+            def after(v, env):
+                if isinstance(old, tuple) and old[0] == "string":
+                    if op == "=" and isinstance(v, tuple) and v[0] == "string":
+                        env2 = dict(env)
+                        env2[name] = v
+                        return k(v, env2)
+                    self.err("assignment to a String")
+                if isinstance(v, tuple):
+                    self.err("a String is assigned to a scalar")
+                if op == "=":
+                    if isinstance(old.ty, tuple):
+                        if not isinstance(v.ty, tuple) or v.ty[2] != old.ty[2]:
+                            if not isinstance(v.ty, tuple):
+                                self.err("integer assigned to a pointer")
+                        new = Val(v.text, v.ty if isinstance(v.ty, tuple) else old.ty)
+                    else:
+                        new = self.convert(v, old.ty)
+                elif op == "+=" and (isinstance(old.ty, tuple) or old.ty == "u64"):
+                    self.byte_of(v)
+                    new = self.incremented(old, v)
+                elif op in ("&=", "|=") and old.ty == "bool":
+                    vb = self.convert(v, "bool")
+                    new = Val(f"({old.text} {'&&' if op == '&=' else '||'} {vb.text})", "bool")
+                else:
+                    new = self.convert(self.binop(op[:-1], old, v), old.ty)
+                env2 = dict(env)
+                env2[name] = new
+                return k(new, env2)
+            return self.rvalue(rhs, env, after)
+        # store through a pointer:  p[i] = e;  p[i++] |= e;   (C++17: right operand first for `=`, `|=`)
+
+        def with_rhs(v, env):
+            def with_addr(p, i, env):
+                if not (isinstance(p, Val) and isinstance(p.ty, tuple) and p.ty[0] == "ptr"):
+                    self.err("store through a non-pointer")
+                self.byte_of(i)
+                blk = env["#blocks"][p.ty[2]]
+                if blk["kind"] != "out":
+                    self.err("store into a read-only block")
+                cur = env[blk["var"]]
+                at = self.addtext(p.text, i.text)
+                if isinstance(v, tuple):
+                    self.err("a String is stored into memory")
+                self.byte_of(v) if v.ty != "s8" else None
+
+                def put(val, env):
+                    b = val.bound()
+                    vt = val.text if (b is not None and b < 256) else f"{par(val.text)} % 256"
+                    o = self.fresh("o")
+                    env2 = dict(env)
+                    env2[blk["var"]] = ("string", o, cur[2])
+                    return f"(wr {par(cur[1])} {par(at)} {par(vt)}).bind fun {o} =>\n" + ind(k(val, env2))
+                if op == "=":
+                    return put(v, env)
+                if op == "|=":
+                    x = self.fresh("x")
+                    return f"(rd {par(cur[1])} {par(at)}).bind fun {x} =>\n" + ind(put(self.binop("|", Val(x, "u8", 255), v), env))
+                self.err(f"`{op}` through a pointer is not translated")
+            return self.store(lhs, env, with_addr)
+        return self.rvalue(rhs, env, with_rhs)
+
+    def call(self, e, env, k):
+        _, fname, args = e
+        sig = self.unit.sigs.get((fname, len(args)))
+        if sig is None:
+            self.err(f"call of {fname}/{len(args)}: no translated function of that name and arity")
+        lean, params, ret = sig
+        texts, outs = [], []
+
+        def go(j, env):
+            if j == len(args):
+                return finish(env)
+            pty = params[j][0]
+
+            def got(v, env):
+                if isinstance(pty, tuple) and pty[0] == "ptr":
+                    if isinstance(v, tuple) and v[0] == "string":       # String -> const char*: the C-string view
+                        texts.append(f"({v[1]} ++ [0]) {par(v[1])}.length 0")
+                    else:
+                        if not (isinstance(v.ty, tuple) and v.ty[0] == "ptr"):
+                            self.err(f"argument {j + 1} of {fname} must be a pointer")
+                        b = env["#blocks"][v.ty[2]]
+                        if b["kind"] != "in":
+                            self.err("a writable block is passed to a function")
+                        texts.append(f"{b['mem']} {b['lim']} {par(v.text)}")
+                elif pty == ("cref", "string"):
+                    if not (isinstance(v, tuple) and v[0] == "string" and v[2] == "value"):
+                        self.err(f"argument {j + 1} of {fname} must be a String")
+                    texts.append(par(v[1]))
+                elif isinstance(pty, tuple) and pty[0] == "ref":
+                    if args[j][0] != "var" or not (isinstance(v, tuple) and v[0] == "string" and v[2] == "value"):
+                        self.err(f"argument {j + 1} of {fname} must be a String variable")
+                    texts.append(par(v[1]))
+                    outs.append(args[j][1])
+                elif pty == "string":
+                    self.err("String by value")
+                else:
+                    if isinstance(v, tuple):
+                        self.err(f"argument {j + 1} of {fname}: String passed for a scalar")
+                    if pty == "s8" and v.ty in ("s8", "u8"):
+                        texts.append(par(v.text))
+                    else:
+                        texts.append(par(self.convert(v, pty).text))
+                return go(j + 1, env)
+            return self.rvalue(args[j], env, got)
+
+        def finish(env):
+            fuel = "fuel " if self.unit.needs_fuel.get(lean) else ""
+            if fuel:
+                self.fuel_used = True
+            app = f"{lean} {fuel}{' '.join(texts)}".strip()
+            r = self.fresh("r")
+            env2 = dict(env)
+            if outs:
+                if len(outs) != 1:
+                    self.err("more than one String& argument")
+                env2[outs[0]] = ("string", f"{r}.2", "value")
+                val = f"{r}.1"
+            else:
+                val = r
+            rv = ("string", val, "value") if ret == "string" else Val(val, ret, None) if ret != "void" else None
+            return f"({app}).bind fun {r} =>\n" + ind(k(rv, env2))
+        return go(0, env)
+
+    def method(self, e, env, k):
+        _, obj, name, args = e
+        if obj[0] != "var" or obj[1] not in env or not (isinstance(env[obj[1]], tuple) and env[obj[1]][0] == "string"):
+            self.err(f"method call .{name} on something that is not a String variable")
+        on = obj[1]
+        sv = env[on]
+        if name == "length" and not args:
+            if sv[2] != "value":
+                self.err("length() of a String with raw stores")
+            return k(Val(f"{par(sv[1])}.length", "u64", None), env)
+        if name == "append" and len(args) == 1:
+            def got(v, env):
+                sv = env[on]
+                if sv[2] != "value" or isinstance(v, tuple):
+                    self.err("append: only single characters are translated")
+                w = self.char_mod
+                if v.ty in ("s8", "tchar") and w == 256 or v.ty == "tchar":
+                    ct = v.text
+                else:
+                    self.byte_of(v)
+                    b = v.bound()
+                    ct = v.text if b is not None and b < w else f"{par(v.text)} % {w}"
+                env2 = dict(env)
+                env2[on] = ("string", f"{sv[1]} ++ [{ct}]", "value")
+                return k(None, env2)
+            return self.rvalue(args[0], env, got)
+        if name in ("resize", "reserve") and len(args) == 1:
+            def got(n, env):
+                sv = env[on]
+                self.byte_of(n)
+                env2 = dict(env)
+                if sv[1] == "[]" and sv[2] == "value":
+                    env2[on] = ("string", f"List.replicate {par(n.text)} 0", "value" if name == "resize" else "reserved")
+                    return k(None, env2)
+                if name == "resize" and sv[2] == "reserved":
+                    env2[on] = ("string", f"{par(sv[1])}.take {par(n.text)}", "value")
+                    return f"if {n.text} ≤ {par(sv[1])}.length then\n" + ind(k(None, env2)) + "\nelse\n  .oob"
+                self.err(f"{name}() is only translated on the fresh String / after reserve()")
+            return self.rvalue(args[0], env, got)
+        self.err(f"String::{name}/{len(args)} is not translated")
+
+    # ---- conditions ----
+    def cond(self, e, env, k):
+        def got(v, env):
+            if isinstance(v, tuple):
+                self.err("a String used as a condition")
+            if v.ty == "prop":
+                return k(v.text, env)
+            if v.ty == "bool":
+                return k(f"{v.text} = true", env)
+            self.byte_of(v)
+            return k(f"{v.text} ≠ 0", env)
+        return self.rvalue(e, env, got)
+
+    # ---- statements.  K = dict(next=fn(env), brk=fn(env)|None, cont=fn(env)|None) ; `return` uses self.ret ----
+    def ret_text(self, v, env):
+        extra = ""
+        if self.refs:
+            sv = env[self.refs[0]]
+            if sv[2] != "value":
+                self.err("String& parameter left with raw stores")
+            extra = sv[1]
+        if self.ret == "void":
+            return f".ok {par(extra)}" if extra else ".ok ()"
+        if self.ret == "string":
+            if not (isinstance(v, tuple) and v[0] == "string"):
+                self.err("return of a non-String from a String function")
+            if v[2] != "value":
+                self.err("a String with raw stores is returned without resize()")
+            val = v[1]
+        else:
+            if v is None or isinstance(v, tuple):
+                self.err("return value")
+            if self.ret == "bool":
+                val = self.convert(v, "bool").text if v.ty != "bool" else v.text
+            else:
+                val = self.convert(v, self.ret).text
+        return f".ok ({val}, {extra})" if extra else f".ok {par(val)}"
+
+    def seq(self, stmts, env, K):
+        if not stmts:
+            return K["next"](env)
+        st, rest = stmts[0], stmts[1:]
+        Krest = dict(K)
+        Krest["next"] = lambda env: self.seq(rest, env, K)
+        return self.stmt(st, env, Krest)
+
+    def stmt(self, st, env, K):
+        kind = st[0]
+        if kind == "block":
+            outer = set(env)
+
+            def leave(env2):
+                return K["next"]({n: v for n, v in env2.items() if n in outer})
+            K2 = dict(K)
+            K2["next"] = leave
+            return self.seq(st[1], env, K2)
+        if kind == "expr":
+            return self.rvalue(st[1], env, lambda v, env: K["next"](env))
+        if kind == "return":
+            if st[1] is None:
+                return self.ret_text(None, env)
+            return self.rvalue(st[1], env, lambda v, env: self.ret_text(v, env))
+        if kind == "break":
+            if K.get("brk") is None:
+                self.err("break outside a loop / switch")
+            return K["brk"](env)
+        if kind == "continue":
+            if K.get("cont") is None:
+                self.err("continue outside a loop")
+            return K["cont"](env)
+        if kind == "if":
+            def got(c, env):
+                thn = self.stmt(st[2], env, K)
+                els = self.stmt(st[3], env, K) if st[3] is not None else K["next"](env)
+                return f"if {c} then\n{ind(thn)}\nelse\n{ind(els)}"
+            return self.cond(st[1], env, got)
+        if kind == "decl":
+            return self.decl(st[1], env, K)
+        if kind == "switch":
+            return self.switch(st, env, K)
+        if kind == "for":
+            return self.loop(st, env, K)
+        self.err(f"statement {kind}")
+
+    def decl(self, ds, env, K):
+        if not ds:
+            return K["next"](env)
+        d, rest = ds[0], ds[1:]
+        go = lambda env: self.decl(rest, env, K)
+        if d[0] == "table":
+            _, ty, name, vals, n = d
+            if ty not in WIDTH:
+                self.err(f"table {name}: element type")
+            nums = []
+            for v in vals:
+                t = self.rvalue(v, {"#blocks": {}}, lambda x, env: x.text)
+                if not re.fullmatch(r"\d+", t):
+                    self.err(f"table {name}: entry {t} is not a literal")
+                nums.append(int(t))
+            if n is not None:
+                size = int(self.rvalue(n, {"#blocks": {}}, lambda x, env: x.text))
+                if size < len(nums):
+                    self.err(f"table {name}: more initialisers than elements")
+                nums += [0] * (size - len(nums))
+            lname = f"{self.name}_{name}"
+            self.tables.append(f"def {lname} : List Nat :=\n  {nums}\n")
+            env2 = dict(env)
+            env2[name] = ("table", lname, ty)
+            return go(env2)
+        if d[0] == "ctor":
+            _, ty, name, args = d
+            if ty != "string" or len(args) != 1:
+                self.err(f"constructor call of {name}")
+            # String r(capacity): an empty String; the capacity argument is evaluated and dropped
+            return self.rvalue(args[0], env, lambda v, env: go({**env, name: ("string", "[]", "value")}))
+        _, ty, name, init = d
+        if ty == "string":
+            if init is not None:
+                self.err("initialised String declaration")
+            return go({**env, name: ("string", "[]", "value")})
+        if init is None:
+            if isinstance(ty, tuple):
+                self.err(f"uninitialised pointer {name}")
+            return go({**env, name: Val("0", ty, 0)})           # read-before-write of an uninitialised scalar cannot be seen: 0
+        if isinstance(ty, tuple) and ty[0] == "ptr" and init[0] == "strlit":
+            lname = f"{self.name}_{name}"
+            self.tables.append(f"def {lname} : List Nat := {[ord(c) for c in init[1]]}  -- \"{init[1]}\"\n")
+            return go({**env, name: ("table", lname, "u8" if ty[1] == "s8" else ty[1])})
+
+        def got(v, env):
+            if isinstance(ty, tuple) and ty[0] == "ptr":
+                if isinstance(v, tuple) and v[0] == "string":
+                    if init[0] != "var":
+                        self.err("pointer to a temporary String")
+                    v = self.string_ptr(v, init, env)
+                if not (isinstance(v.ty, tuple) and v.ty[0] == "ptr"):
+                    self.err(f"pointer {name} initialised with a non-pointer")
+                if WIDTH.get(ty[1]) != WIDTH.get(v.ty[1]):
+                    self.err("pointer conversion between element sizes")
+                return go({**env, name: Val(v.text, ("ptr", ty[1], v.ty[2]))})
+            if isinstance(v, tuple):
+                self.err(f"{name}: String assigned to a scalar")
+            return go({**env, name: self.convert(v, ty)})
+        return self.rvalue(init, env, got)
+
+    def switch(self, st, env, K):
+        _, sel, cases = st
+        labels = []
+        for lab, _ in cases:
+            if lab is None:
+                labels.append(None)
+            else:
+                t = self.rvalue(lab, {"#blocks": {}}, lambda x, env: x.text)
+                if not re.fullmatch(r"\d+", t):
+                    self.err("case label is not a literal")
+                labels.append(t)
+        if len(set(labels)) != len(labels):
+            self.err("duplicate case labels")
+        Ks = dict(K)
+        Ks["brk"] = K["next"]
+
+        def entry(j, env):
+            """statements from case j to the end of the switch (fall-through)"""
+            body = []
+            for _, ss in cases[j:]:
+                body += ss
+            return self.seq(body, env, Ks)
+
+        def got(s, env):
+            if isinstance(s, tuple):
+                self.err("switch on a String")
+            self.byte_of(s)
+            order = [j for j, l in enumerate(labels) if l is not None]
+            dflt = [j for j, l in enumerate(labels) if l is None]
+            text = entry(dflt[0], env) if dflt else K["next"](env)
+            for j in reversed(order):
+                text = f"if {s.text} = {labels[j]} then\n{ind(entry(j, env))}\nelse\n{ind(text)}" if False else \
+                    f"if {s.text} = {labels[j]} then\n{ind(entry(j, env))}\nelse {text}" if text.startswith("if ") else \
+                    f"if {s.text} = {labels[j]} then\n{ind(entry(j, env))}\nelse\n{ind(text)}"
+            return text
+        return self.rvalue(sel, env, got)
+
+    def assigned(self, node, acc):
+        """names assigned / incremented anywhere inside a statement or expression (syntactic)"""
+        if isinstance(node, (list, tuple)):
+            if node and node[0] == "assign" and node[2][0] == "var":
+                acc.add(node[2][1])
+            if node and node[0] in ("postinc", "preinc") and node[2][0] == "var":
+                acc.add(node[2][1])
+            if node and node[0] == "method" and node[1][0] == "var":
+                acc.add(node[1][1])
+            if node and node[0] == "call":
+                for a in node[2]:
+                    if a[0] == "var":
+                        acc.add(a[1])           # a String& argument may be modified
+            if node and node[0] == "assign" and node[2][0] in ("index", "un"):
+                acc.add("#store")
+            for x in node:
+                self.assigned(x, acc)
+        return acc
+
+    def loop(self, st, env, K):
+        _, init, cond, incs, body = st
+        outer = set(env)
+        self.fuel_used = True
+
+        def after_init(env):
+            mutated = self.assigned([cond, incs, body], set())
+            if "#store" in mutated:
+                for b in env["#blocks"].values():
+                    if b["kind"] == "out":
+                        mutated.add(b["var"])
+            lname = f"{self.name}_loop{len(self.loops) + 1}"
+            # parameters: every scalar / string variable of the environment (tables are global constants)
+            names = [n for n in env if not n.startswith("#") and not (isinstance(env[n], tuple) and env[n][0] == "table")]
+            params, inner = [], {"#blocks": env["#blocks"]}
+            for n in env:
+                if isinstance(env[n], tuple) and env[n][0] == "table":
+                    inner[n] = env[n]
+            for n in names:
+                v = env[n]
+                ln = self.unit.lean_ident(n)
+                if isinstance(v, tuple):
+                    params.append(f"({ln} : List Nat)")
+                    inner[n] = ("string", ln, v[2])
+                elif v.ty == "bool":
+                    params.append(f"({ln} : Bool)")
+                    inner[n] = Val(ln, "bool")
+                else:
+                    params.append(f"({ln} : Nat)")
+                    inner[n] = Val(ln, v.ty, None if n in mutated else v.ub)
+
+            def recur(env2):
+                args = []
+                for n in names:
+                    v = env2[n]
+                    args.append(par(v[1] if isinstance(v, tuple) else v.text))
+                return f"{lname} {self.ctx_args()}fuel {' '.join(args)}".rstrip()
+
+            def leave(env2):
+                return K["next"]({n: v for n, v in env2.items() if n in outer or n.startswith("#")})
+
+            def do_inc(env2):
+                def run(j, env3):
+                    if j == len(incs):
+                        return recur(env3)
+                    return self.rvalue(incs[j], env3, lambda v, env4: run(j + 1, env4))
+                return run(0, env2)
+            Kb = {"next": do_inc, "brk": leave, "cont": do_inc}
+
+            def with_cond(c, env2):
+                b = self.stmt(body, env2, Kb)
+                return f"if {c} then\n{ind(b)}\nelse\n{ind(leave(env2))}"
+            inner_text = self.cond(cond, inner, with_cond) if cond is not None else self.stmt(body, inner, Kb)
+            hdr = self.ctx_params()
+            self.loops.append(
+                f"def {lname} {hdr}: Nat → {' → '.join(['List Nat' if p.endswith(': List Nat)') else 'Bool' if p.endswith(': Bool)') else 'Nat' for p in params] + [self.lean_ret()])}\n"
+                f"  | 0{', _' * len(params)} => .oob\n"
+                f"  | fuel + 1, {', '.join(p[1:].split(' ')[0] for p in params)} =>\n{ind(inner_text, 2)}\n")
+            args = []
+            for n in names:
+                v = env[n]
+                args.append(par(v[1] if isinstance(v, tuple) else v.text))
+            return f"{lname} {self.ctx_args()}fuel {' '.join(args)}".rstrip()
+
+        if init is None:
+            return after_init(env)
+        if init[0] == "decl":
+            K2 = {"next": after_init, "brk": None, "cont": None}
+            return self.decl(init[1], env, K2)
+        return self.rvalue(init[1], env, lambda v, env: after_init(env))
+
+    # ---- function ----
+    def lean_ret(self):
+        base = {"string": "(List Nat)", "bool": "Bool", "void": "Unit"}.get(self.ret, "Nat")
+        if self.refs:
+            return f"Res ({base} × List Nat)" if self.ret != "void" else "Res (List Nat)"
+        return f"Res {base}"
+
+    def ctx_params(self):
+        """the memory blocks behind pointer parameters: fixed context of the loop functions"""
+        return "".join(f"({n}_mem : List Nat) ({n}_lim : Nat) " for t, n in self.params if isinstance(t, tuple) and t[0] == "ptr")
+
+    def ctx_args(self):
+        return "".join(f"{n}_mem {n}_lim " for t, n in self.params if isinstance(t, tuple) and t[0] == "ptr")
+
+    def compile(self):
+        env = {"#blocks": {}}
+        ps = []
+        self.const_strings = set()
+        for ty, n in self.params:
+            ln = self.unit.lean_ident(n)
+            if isinstance(ty, tuple) and ty[0] == "ptr":
+                ps.append(f"({n}_mem : List Nat) ({n}_lim : Nat) ({ln} : Nat)")
+                env["#blocks"][n] = {"kind": "in", "mem": f"{n}_mem", "lim": f"{n}_lim"}
+                env[n] = Val(ln, ("ptr", ty[1], n))
+            elif ty in (("ref", "string"), ("cref", "string")):
+                ps.append(f"({ln} : List Nat)")
+                env[n] = ("string", ln, "value")
+                if ty[0] == "cref":
+                    self.const_strings.add(n)
+            elif ty in WIDTH:
+                ps.append(f"({ln} : Nat)")
+                env[n] = Val(ln, ty, None)
+            else:
+                self.err(f"parameter {n}: type not translated")
+        K = {"next": lambda env: self.ret_text(None, env) if self.ret == "void" else self.err("control reaches the end of a non-void function"),
+             "brk": None, "cont": None}
+        body = self.seq(self.stmts, env, K)
+        fuel = "(fuel : Nat) " if self.fuel_used else ""
+        text = "".join(self.tables) + "".join(self.loops)
+        text += f"def {self.name} {fuel}{' '.join(ps)} : {self.lean_ret()} :=\n{ind(body)}\n"
+        return text, bool(fuel)
+
+
+class BodyUnit:
+    """the functions of one generated file; `sigs` maps (C name, arity) -> (Lean name, params, return type)"""
+    RESERVED = {"end", "in", "at", "from", "fun", "open", "do", "then", "else", "if", "let", "have", "show", "by", "match", "with", "out"}
+
+    def __init__(self):
+        self.sigs, self.needs_fuel, self.out = {}, {}, []
+
+    def lean_ident(self, n):
+        return n + "_" if n in self.RESERVED else n
+
+    def add(self, src, header_rx, cname, lean, ret, what, defines=(), tchar_bits=8):
+        params, stmts = parse_function(src, header_rx, what, defines)
+        fc = FnCompiler(self, lean, params, stmts, ret, what, tchar_bits)
+        if len(fc.refs) > 1:
+            raise TranslateError(f"{what}: more than one String& parameter")
+        text, fuel = fc.compile()
+        self.sigs[(cname, len(params))] = (lean, params, ret)
+        self.needs_fuel[lean] = fuel
+        self.out.append(f"/-- {what} -/\n" + text + "\n")
+
+
+def generate_body(repo):
+    usrc = (Path(repo) / "include" / "nstd" / "Unicode.hpp").read_text(errors="replace")
+    ssrc = (Path(repo) / "src" / "String.cpp").read_text(errors="replace")
+    u = BodyUnit()
+    P = r"\s*\((?P<params>[^)]*)\)\s*\{"
+    u.add(usrc, r"static\s+bool\s+append\s*\((?P<params>\s*uint32\s+\w+\s*,\s*String\s*&\s*\w+\s*)\)\s*\{", "append", "append", "bool",
+          "Unicode::append(uint32, String&), UTF-8 branch (#else of #ifdef _UNICODE)")
+    u.add(usrc, r"static\s+bool\s+append\s*\((?P<params>\s*const\s+uint32\s*\*\s*\w+\s*,\s*usize\s+\w+\s*,\s*String\s*&\s*\w+\s*)\)\s*\{", "append", "appendArr", "bool",
+          "Unicode::append(const uint32*, usize, String&)")
+    u.add(usrc, r"static\s+String\s+toString\s*\((?P<params>\s*uint32\s+\w+\s*)\)\s*\{", "toString", "toString", "string", "Unicode::toString(uint32)")
+    u.add(usrc, r"static\s+String\s+toString\s*\((?P<params>\s*const\s+uint32\s*\*\s*\w+\s*,\s*usize\s+\w+\s*)\)\s*\{", "toString", "toStringArr", "string",
+          "Unicode::toString(const uint32*, usize)")
+    u.add(usrc, r"static\s+usize\s+length\s*\((?P<params>\s*char\s+\w+\s*)\)\s*\{", "length", "length", "u64", "Unicode::length(char)")
+    u.add(usrc, r"static\s+uint32\s+fromString\s*\((?P<params>\s*const\s+char\s*\*\s*\w+\s*,\s*usize\s+\w+\s*)\)\s*\{", "fromString", "fromString", "u32",
+          "Unicode::fromString(const char*, usize)")
+    u.add(usrc, r"static\s+uint32\s+fromString\s*\((?P<params>\s*const\s+String\s*&\s*\w+\s*)\)\s*\{", "fromString", "fromStringS", "u32",
+          "Unicode::fromString(const String&)")
+    u.add(usrc, r"static\s+bool\s+isValid\s*\((?P<params>\s*const\s+char\s*\*\s*\w+\s*,\s*usize\s+\w+\s*)\)\s*\{", "isValid", "isValid", "bool",
+          "Unicode::isValid(const char*, usize)")
+    u.add(usrc, r"static\s+bool\s+isValid\s*\((?P<params>\s*const\s+String\s*&\s*\w+\s*)\)\s*\{", "isValid", "isValidS", "bool",
+          "Unicode::isValid(const String&)")
+    S = r"String\s+String::"
+    u.add(ssrc, S + r"fromHex\s*\((?P<params>\s*const\s+byte\s*\*\s*\w+\s*,\s*usize\s+\w+\s*)\)\s*\{", "fromHex", "fromHex", "string", "String::fromHex(const byte*, usize)")
+    u.add(ssrc, S + r"fromBase64\s*\((?P<params>\s*const\s+String\s*&\s*\w+\s*)\)\s*\{", "fromBase64", "fromBase64", "string", "String::fromBase64(const String&)")
+    out = ["/- GENERATED by tools/gen_codec.py (body translator) from the current sources of the repo -- do not edit. -/\n",
+           "import Nstd.Codec.Mem\nset_option linter.unusedVariables false\nnamespace Nstd.Generated.CodecBody\nopen Nstd.Codec\n\n"]
+    out += u.out
+    out.append("end Nstd.Generated.CodecBody\n")
+    return "".join(out)
+
+
+
 def generate(repo):
     out = ["/- GENERATED by tools/gen_codec.py from the current sources of the repo -- do not edit. -/\n",
            "import Nstd.Codec.Mem\nnamespace Nstd.Generated.Codec\nopen Nstd.Codec\n\n"]
@@ -522,11 +1764,13 @@ def gen(ctx=None, repo=None):
         repo = Path(os.environ.get("NSTD_REPO", "/repo"))
     try:
         text = generate(Path(repo))
-    except (TranslateError, OSError) as ex:
+        btext = generate_body(Path(repo))
+    except (TranslateError, OSError, RecursionError) as ex:
         return False, f"gen_codec: {ex}"
     OUT.parent.mkdir(parents=True, exist_ok=True)
-    if not OUT.exists() or OUT.read_text() != text:
-        OUT.write_text(text)
+    for path, t in ((OUT, text), (BODY_OUT, btext)):
+        if not path.exists() or path.read_text() != t:
+            path.write_text(t)
     return True, str(OUT)
 
 
